@@ -146,33 +146,39 @@ def applyEffect (st : RState) : Effect → RState
   | .fg cs ok => { st with chains := cs, full := st.full && ok }
   | .postpone n => { st with higher := st.higher ++ [n] }
 
-/-- one modification token, as an effect on the current side-chain table `cs0` -/
-def tokenEffect (v : View) (cs0 : Chains) (n0 : List Char) : Outcome Effect :=
+/-- Where a token writes and how – decided from the token text, the residue view and the *size* of the side-chain table only, never
+    from the table's content: nothing, postponement, an edit of one cell as a function of that cell's current text, or `set_fg` on
+    one cell. -/
+inductive CellOp where
+  | none
+  | postpone (n : List Char)
+  | edit (pos col : Nat) (f : List Char → List Char)
+  | fg (col pos : Nat) (be name : List Char)
+
+/-- the token dispatch of `react` -/
+def tokenOp (v : View) (len : Nat) (n0 : List Char) : Outcome CellOp :=
   if skipped n0 then .ok .none else
   let n := if n0.head? == some '-' && n0 != "-uronic".toList then n0.drop 1 else n0
-  let app (cs : Chains) (pos col : Nat) (s : List Char) := setCell cs pos col (· ++ s)
-  let withFg (col pos : Nat) (be name : List Char) : Outcome Effect :=
-    bindO (setFg cs0 col pos be name) (fun (cs, ok) => .ok (.fg cs ok))
+  let withFg (col pos : Nat) (be name : List Char) : Outcome CellOp := .ok (.fg col pos be name)
   if n == ['A'] || n == "-uronic".toList then
-    let cur := getCell cs0 v.uronic 0
-    if v.uronic ≥ cs0.length then .error "IndexError" else
-    .ok (.chains (app cs0 v.uronic 0 (if cur.getLast? == some 'O' then "C(=O)O".toList else "(=O)O".toList)))
+    if v.uronic ≥ len then .error "IndexError" else
+    .ok (.edit v.uronic 0 (fun cur => cur ++ (if cur.getLast? == some 'O' then "C(=O)O".toList else "(=O)O".toList)))
   else if n == ['N'] then
     let pos := if ["Fru".toList, "Tag".toList, "Sor".toList, "Psi".toList].contains v.name then 1 else 2
-    if pos ≥ cs0.length then .error "IndexError" else .ok (.chains (app cs0 pos 0 ['N']))
+    if pos ≥ len then .error "IndexError" else .ok (.edit pos 0 (· ++ ['N']))
   else if n == "D-".toList || n == "L-".toList then .ok .none
   else if n == "Ac".toList && v.name == "Neu".toList then
-    if 5 ≥ cs0.length then .error "IndexError" else .ok (.chains (app cs0 5 0 "NC(=O)C".toList))
+    if 5 ≥ len then .error "IndexError" else .ok (.edit 5 0 (· ++ "NC(=O)C".toList))
   else if n == "Gc".toList && v.name == "Neu".toList then
-    if 5 ≥ cs0.length then .error "IndexError" else .ok (.chains (app cs0 5 0 "NC(=O)CO".toList))
+    if 5 ≥ len then .error "IndexError" else .ok (.edit 5 0 (· ++ "NC(=O)CO".toList))
   else
     match n with
     | [] => .error "IndexError"
     | c0 :: rest =>
       if isDigitC c0 then
         let p := c0.toNat - '0'.toNat
-        if p > cs0.length - 1 then .ok (.postpone n)
-        else if rest == ['d'] then .ok (.chains (app cs0 p 0 ['H']))
+        if p > len - 1 then .ok (.postpone n)
+        else if rest == ['d'] then .ok (.edit p 0 (· ++ ['H']))
         else if rest == ['e'] then .ok .none
         else if n.length > 4 && n.getD 1 ' ' == '-' && n.getD 3 ' ' == '-' && (n.getD 2 ' ' == 'O' || n.getD 2 ' ' == 'N') then
           let nm := slice n 4 (n.length - 1)
@@ -223,6 +229,17 @@ def tokenEffect (v : View) (cs0 : Chains) (n0 : List Char) : Outcome Effect :=
           | some val =>
             if val.isEmpty then .error "IndexError" else
             bindO (colFor v v.ringC) (fun col => withFg col v.ringC [] n)
+
+/-- carrying an operation out on the table -/
+def applyOp (cs : Chains) : CellOp → Outcome Effect
+  | .none => .ok .none
+  | .postpone n => .ok (.postpone n)
+  | .edit pos col f => .ok (.chains (setCell cs pos col f))
+  | .fg col pos be name => bindO (setFg cs col pos be name) (fun (cs', ok) => .ok (.fg cs' ok))
+
+/-- one modification token, as an effect on the current side-chain table `cs0` -/
+def tokenEffect (v : View) (cs0 : Chains) (n0 : List Char) : Outcome Effect :=
+  bindO (tokenOp v cs0.length n0) (applyOp cs0)
 
 /-- one modification token of a round -/
 def reactToken (v : View) (st : RState) (n0 : List Char) : Outcome RState :=
